@@ -43,94 +43,79 @@ Qed.
 
 Lemma pres_inv_init sc c : pres_inv sc (mark_received (new sc c)) [].
 Proof.
-  unfold pres_inv, new, mark_received, raw_at. cbn [ocls oraw ocur]. repeat split.
-  - discriminate.
-  - discriminate.
-  - intros _. erewrite nth_error_nth by (rewrite nth_error_map, H; reflexivity). reflexivity.
+  unfold pres_inv, new, mark_received, raw_at. cbn [ocls oraw ocur]. split; [|split].
+  - intros j f Hj _ _. split; [discriminate|]. intros _.
+    erewrite nth_error_nth by (rewrite nth_error_map, Hj; reflexivity). reflexivity.
   - intros g. rewrite nth_repeat_none. reflexivity.
-  - rewrite nth_repeat_none in H. discriminate.
-  - rewrite nth_repeat_none in H. discriminate.
+  - intros g i H. rewrite nth_repeat_none in H. discriminate.
 Qed.
 
 Lemma unchanged_raw_at o o' j : unchanged o o' -> raw_at o' j = raw_at o j.
 Proof. intros (_ & E & _). unfold raw_at. rewrite E. reflexivity. Qed.
+
+Lemma pres_unchanged sc o o' seen r :
+  unchanged o o' -> pres_inv sc o seen ->
+  (forall j f, nth_error (cfields (get_class sc (ocls o))) j = Some f ->
+               has_record f (seen ++ [r]) = has_record f seen) ->
+  owner (get_class sc (ocls o)) r = None ->
+  pres_inv sc o' (seen ++ [r]).
+Proof.
+  intros U (I1 & I2 & I3) Hsame Ow. pose proof U as (Ec & Er & Eu).
+  unfold pres_inv. rewrite Ec. split; [|split].
+  - intros j f Hj Gf Sf. rewrite (Hsame j f Hj), (unchanged_raw_at _ _ _ U). apply (I1 j f Hj Gf Sf).
+  - intros g. rewrite last_member_snoc, Ow, Eu. apply I2.
+  - intros g i0 Hi0. rewrite (unchanged_raw_at _ _ _ U). rewrite Eu in Hi0. eapply I3. exact Hi0.
+Qed.
 
 Lemma pres_step fuel' sc o seen r a o' :
   wf_schema sc = true -> std_builtins_b sc = true -> good sc o -> pres_inv sc o seen ->
   apply_record fuel' sc (get_class sc (ocls o)) o (parsed_of r a) = Ok o' ->
   pres_inv sc o' (seen ++ [r]) /\ good sc o' /\ ocls o' = ocls o.
 Proof.
-  intros W S Hg (I1 & I2 & I3) H.
+  intros W S Hg Hinv H. pose proof Hinv as (I1 & I2 & I3).
   pose proof (nested_good_all sc fuel' W S) as Hn.
   pose proof (apply_record_good _ _ _ _ _ W S Hn Hg H) as [Hg' Hc'].
   split; [|auto].
   pose proof (apply_record_effect _ _ _ _ _ W S Hn Hg H) as E.
   pose proof (owner_spec sc (ocls o) r W) as Ow.
-  unfold pres_inv. rewrite Hc'. set (cd := get_class sc (ocls o)) in *.
   cbn [parsed_of pnum pwt] in E.
-  destruct (field_by_number cd (rnum r)) as [[i fi]|] eqn:B.
+  destruct (field_by_number (get_class sc (ocls o)) (rnum r)) as [[i fi]|] eqn:B.
   2:{ (* no field has this number *)
-    repeat split.
-    - intros Hh. rewrite has_record_snoc in Hh.
-      replace (rnum r =? fnum f) with false in Hh
-        by (symmetry; apply Z.eqb_neq; intros Eq; eapply (field_by_number_none cd (rnum r)); eauto).
-      rewrite orb_false_r in Hh. rewrite (unchanged_raw_at _ _ _ E). apply (I1 j f); assumption.
-    - intros Pm. rewrite has_record_snoc in H3.
-      replace (rnum r =? fnum f) with false in H3
-        by (symmetry; apply Z.eqb_neq; intros Eq; eapply (field_by_number_none cd (rnum r)); eauto).
-      rewrite orb_false_r in H3. rewrite (unchanged_raw_at _ _ _ E). apply (I1 j f); assumption.
-    - intros Hh. rewrite has_record_snoc in Hh.
-      replace (rnum r =? fnum f) with false in Hh
-        by (symmetry; apply Z.eqb_neq; intros Eq; eapply (field_by_number_none cd (rnum r)); eauto).
-      rewrite orb_false_r in Hh. rewrite (unchanged_raw_at _ _ _ E). apply (I1 j f); assumption.
-    - intros g. rewrite last_member_snoc, Ow. destruct E as (_ & _ & ->). apply I2.
-    - intros g i0 Hi0. rewrite (unchanged_raw_at _ _ _ E). destruct E as (_ & _ & Ec). rewrite Ec in Hi0.
-      eapply I3. exact Hi0. }
+    apply (pres_unchanged sc o o' seen r E Hinv); [|exact Ow].
+    intros j f Hj. rewrite has_record_snoc.
+    replace (rnum r =? fnum f) with false
+      by (symmetry; apply Z.eqb_neq; intros Eq; eapply (field_by_number_none _ (rnum r)); eauto).
+    cbn [andb]. apply orb_false_r. }
   pose proof (field_by_number_some _ _ _ _ B) as [Bi Bn].
   rewrite <- fits_is_wire_type_fits in Ow.
-  assert (Hnum : forall j f, nth_error (cfields cd) j = Some f -> j <> i -> (rnum r =? fnum f) = false).
+  assert (Hnum : forall j f, nth_error (cfields (get_class sc (ocls o))) j = Some f -> j <> i -> (rnum r =? fnum f) = false).
   { intros j f Hj Ne. apply Z.eqb_neq. intros Eq. apply Ne.
     eapply (wf_unique_numbers sc (ocls o)); try eassumption. congruence. }
   destruct (wire_type_fits fi (rwt r)) eqn:Hfit.
   2:{ (* the wire type does not fit: kept as unknown *)
-    assert (Hsame : forall j f, nth_error (cfields cd) j = Some f ->
-                    has_record f (seen ++ [r]) = has_record f seen).
-    { intros j f Hj. rewrite has_record_snoc.
-      destruct (Nat.eq_dec j i) as [->|Ne].
-      - rewrite Bi in Hj. injection Hj as <-. rewrite <- fits_is_wire_type_fits, Hfit, andb_false_r, orb_false_r. reflexivity.
-      - rewrite (Hnum j f Hj Ne). cbn [andb]. rewrite orb_false_r. reflexivity. }
-    repeat split.
-    - intros Hh. rewrite (Hsame j f H0) in Hh. rewrite (unchanged_raw_at _ _ _ E). apply (I1 j f); assumption.
-    - intros Pm. rewrite (Hsame j f H0) in H3. rewrite (unchanged_raw_at _ _ _ E). apply (I1 j f); assumption.
-    - intros Hh. rewrite (Hsame j f H0) in Hh. rewrite (unchanged_raw_at _ _ _ E). apply (I1 j f); assumption.
-    - intros g. rewrite last_member_snoc, Ow. destruct E as (_ & _ & ->). apply I2.
-    - intros g i0 Hi0. rewrite (unchanged_raw_at _ _ _ E). destruct E as (_ & _ & Ec). rewrite Ec in Hi0.
-      eapply I3. exact Hi0. }
+    apply (pres_unchanged sc o o' seen r E Hinv); [|exact Ow].
+    intros j f Hj. rewrite has_record_snoc.
+    destruct (Nat.eq_dec j i) as [->|Ne].
+    - rewrite Bi in Hj. injection Hj as <-.
+      rewrite <- fits_is_wire_type_fits, Hfit, andb_false_r. apply orb_false_r.
+    - rewrite (Hnum j f Hj Ne). cbn [andb]. apply orb_false_r. }
   (* the record is stored into field i *)
   destruct E as (vs & E & (Pn & Pp & Pl) & Pm).
   assert (Hval : is_value vs) by (split; assumption).
-  repeat split.
-  - intros Hh. destruct (Nat.eq_dec j i) as [->|Ne].
-    + rewrite (ef_here _ _ _ _ _ _ E). exact Hval.
-    + rewrite has_record_snoc, (Hnum j f H0 Ne) in Hh. cbn [andb] in Hh. rewrite orb_false_r in Hh.
-      destruct (ef_other _ _ _ _ _ _ E j Ne) as [->|(_ & f' & g & Hf' & G1 & _)].
-      * apply (I1 j f); assumption.
-      * unfold fields_of in Hf'. fold cd in Hf'. rewrite H0 in Hf'. injection Hf' as <-. congruence.
-  - intros Pmf. destruct (Nat.eq_dec j i) as [->|Ne].
-    + rewrite (ef_here _ _ _ _ _ _ E). rewrite Bi in H0. injection H0 as <-.
-      destruct Pmf as ((_ & _ & Hw & Ht) & Hm). apply Pm; assumption.
-    + rewrite has_record_snoc, (Hnum j f H0 Ne) in H3. cbn [andb] in H3. rewrite orb_false_r in H3.
-      destruct (ef_other _ _ _ _ _ _ E j Ne) as [->|(_ & f' & g & Hf' & G1 & _)].
-      * apply (I1 j f); assumption.
-      * unfold fields_of in Hf'. fold cd in Hf'. rewrite H0 in Hf'. injection Hf' as <-. congruence.
-  - intros Hh. destruct (Nat.eq_dec j i) as [->|Ne].
-    + exfalso. rewrite Bi in H0. injection H0 as <-.
-      rewrite has_record_snoc, <- fits_is_wire_type_fits, Hfit, Bn, Z.eqb_refl, orb_true_r in Hh. discriminate.
-    + rewrite has_record_snoc, (Hnum j f H0 Ne) in Hh. cbn [andb] in Hh. rewrite orb_false_r in Hh.
-      destruct (ef_other _ _ _ _ _ _ E j Ne) as [->|(_ & f' & g & Hf' & G1 & _)].
-      * apply (I1 j f); assumption.
-      * unfold fields_of in Hf'. fold cd in Hf'. rewrite H0 in Hf'. injection Hf' as <-. congruence.
-  - intros g. rewrite (ef_cur _ _ _ _ _ _ E g), last_member_snoc, Ow, (in_group_spec cd g i fi Bi).
+  assert (Hother : forall j f, nth_error (cfields (get_class sc (ocls o))) j = Some f -> fgroup f = None -> j <> i ->
+                   raw_at o' j = raw_at o j /\ has_record f (seen ++ [r]) = has_record f seen).
+  { intros j f Hj Gf Ne. split.
+    - destruct (ef_other _ _ _ _ _ _ E j Ne) as [->|(_ & f' & g & Hf' & G1 & _)]; [reflexivity|].
+      unfold fields_of in Hf'. rewrite Hj in Hf'. injection Hf' as <-. congruence.
+    - rewrite has_record_snoc, (Hnum j f Hj Ne). cbn [andb]. apply orb_false_r. }
+  unfold pres_inv. rewrite Hc'. split; [|split].
+  - intros j f Hj Gf Sf. destruct (Nat.eq_dec j i) as [->|Ne].
+    + rewrite Bi in Hj. injection Hj as <-. rewrite (ef_here _ _ _ _ _ _ E). split.
+      * intros _. split; [exact Hval|]. intros ((_ & _ & Hw & Ht) & Hm). apply Pm; assumption.
+      * intros Hh. exfalso.
+        rewrite has_record_snoc, <- fits_is_wire_type_fits, Hfit, Bn, Z.eqb_refl, orb_true_r in Hh. discriminate.
+    + destruct (Hother j f Hj Gf Ne) as [-> ->]. apply (I1 j f Hj Gf Sf).
+  - intros g. rewrite (ef_cur _ _ _ _ _ _ E g), last_member_snoc, Ow, (in_group_spec _ g i fi Bi).
     destruct (opt_nat_eqb (fgroup fi) (Some g)); [reflexivity|apply I2].
   - intros g i0 Hi0. rewrite (ef_cur _ _ _ _ _ _ E g) in Hi0.
     destruct (opt_nat_eqb (fgroup fi) (Some g)) eqn:Eg.
@@ -139,17 +124,137 @@ Proof.
       destruct (ef_other _ _ _ _ _ _ E i0 Ne) as [->|(_ & f' & g' & Hf' & G1 & G2)].
       * eapply I3. exact Hi0.
       * exfalso. rewrite I2 in Hi0. apply last_member_in_group in Hi0.
-        unfold fields_of in Hf'. fold cd in Hf'.
-        rewrite (in_group_spec cd g i0 f' Hf'), G1 in Hi0. apply opt_nat_eqb_eq in Hi0.
+        unfold fields_of in Hf'.
+        rewrite (in_group_spec _ g i0 f' Hf'), G1 in Hi0. apply opt_nat_eqb_eq in Hi0.
         rewrite G2, Hi0, opt_nat_eqb_refl in Eg. discriminate.
-  - intros g i0 Hi0. rewrite (ef_cur _ _ _ _ _ _ E g) in Hi0.
-    destruct (opt_nat_eqb (fgroup fi) (Some g)) eqn:Eg.
-    + injection Hi0 as <-. rewrite (ef_here _ _ _ _ _ _ E). apply Hval.
-    + destruct (Nat.eq_dec i0 i) as [->|Ne]; [rewrite (ef_here _ _ _ _ _ _ E); apply Hval|].
-      destruct (ef_other _ _ _ _ _ _ E i0 Ne) as [->|(_ & f' & g' & Hf' & G1 & G2)].
-      * eapply I3. exact Hi0.
-      * exfalso. rewrite I2 in Hi0. apply last_member_in_group in Hi0.
-        unfold fields_of in Hf'. fold cd in Hf'.
-        rewrite (in_group_spec cd g i0 f' Hf'), G1 in Hi0. apply opt_nat_eqb_eq in Hi0.
-        rewrite G2, Hi0, opt_nat_eqb_refl in Eg. discriminate.
+Qed.
+
+Lemma loop_pres fuel' sc :
+  wf_schema sc = true -> std_builtins_b sc = true ->
+  forall rs bs, is_records rs bs ->
+  forall n o seen m rest, (length bs < n)%nat -> good sc o -> pres_inv sc o seen ->
+  my_loop fuel' sc (get_class sc (ocls o)) n o bs = Ok (m, rest) ->
+  pres_inv sc m (seen ++ rs) /\ good sc m /\ ocls m = ocls o.
+Proof.
+  intros W S rs bs Hrs. induction Hrs as [|r rs a b Hr Hrs IH]; intros n o seen m rest Hn Hg Hinv H.
+  - destruct n; [lia|]. cbn [my_loop] in H. injection H as <- _. rewrite app_nil_r. auto.
+  - destruct n; [lia|].
+    destruct (load_record fuel' r a b Hr) as (tag & tb & payload & Ea & Hne & Hv & Hf).
+    assert (La : (1 <= length a)%nat).
+    { rewrite Ea, app_length. destruct tb; [congruence|cbn; lia]. }
+    remember (a ++ b) as s eqn:Es. destruct s as [|x s].
+    { exfalso. apply (f_equal (@length byte)) in Es. rewrite app_length in Es. cbn in Es. lia. }
+    cbn [my_loop] in H. rewrite Hv in H. cbn [bind] in H. rewrite Hf in H. cbn [bind] in H.
+    destruct (apply_record fuel' sc (get_class sc (ocls o)) o (parsed_of r a)) as [o1|] eqn:A;
+      cbn [bind] in H; [|discriminate].
+    destruct (pres_step _ _ _ _ _ _ _ W S Hg Hinv A) as (I1 & G1 & C1).
+    rewrite <- C1 in H.
+    assert (Lb : (length b < n)%nat).
+    { apply (f_equal (@length byte)) in Es. rewrite app_length in Es. cbn [length] in *. lia. }
+    destruct (IH n o1 (seen ++ [r]) m rest Lb G1 I1 H) as (I2 & G2 & C2).
+    rewrite <- app_assoc in I2. cbn [app] in I2. split; [exact I2|]. split; [exact G2|congruence].
+Qed.
+
+Theorem parse_presence sc c bs rs m :
+  wf_schema sc = true -> std_builtins_b sc = true ->
+  is_records rs bs -> parse sc c bs = Ok m ->
+  pres_inv sc m rs /\ good sc m /\ ocls m = c.
+Proof.
+  intros W S Hrs H. unfold parse, parse_into in H.
+  destruct (load (Datatypes.S (length bs)) sc (new sc c) bs None) as [[m' rest]|] eqn:L; cbn [bind] in H; [|discriminate].
+  injection H as <-. rewrite load_none in L.
+  pose proof (good_mark_received sc _ (good_new sc c (wf_opt_hinted sc W))) as G0.
+  change (ocls (new sc c)) with (ocls (mark_received (new sc c))) in L.
+  destruct (loop_pres (length bs) sc W S rs bs Hrs _ _ [] _ _ (Nat.lt_succ_diag_r _) G0 (pres_inv_init sc c) L)
+    as (I & G & C).
+  cbn [app] in I. auto.
+Qed.
+
+(* ---- the three reports ---- *)
+Definition optional_like (f : fdesc) : Prop :=
+  fgroup f = None /\ (fopt f = true \/ exists w t, fwraps f = Some w /\ fhint f = HOptional t).
+
+Lemma optional_like_hint sc ng f :
+  wf_field sc ng f = true -> optional_like f -> exists t, fhint f = HOptional t.
+Proof.
+  intros W (G & [Ho|(w & t & _ & Ht)]); [|eauto].
+  unfold wf_field in W. destruct (fhint f) as [p|p|p|k v]; [|eauto| |];
+    rewrite Ho in W; cbn [negb] in W; rewrite ?andb_false_r, ?andb_false_l in W;
+    repeat (apply andb_prop in W as [W ?]); try discriminate.
+  all: destruct (fgroup f); rewrite ?andb_false_r in *; try discriminate.
+Qed.
+
+Lemma value_read sc o j f x :
+  nth_error (fields_of sc o) j = Some f -> fgroup f = None -> raw_at o j = x -> x <> PPlaceholder ->
+  read sc o j = Ok x.
+Proof.
+  destruct o as [c raw sow unk cur]. unfold fields_of, raw_at, read, getattr. cbn [ocls oraw].
+  intros Hf G Hx Hp. rewrite Hf. unfold group_selects. rewrite G, Hx.
+  destruct x; try reflexivity. congruence.
+Qed.
+
+Lemma placeholder_read sc o j f :
+  nth_error (fields_of sc o) j = Some f -> fgroup f = None -> raw_at o j = PPlaceholder ->
+  read sc o j = Ok (default_of sc f).
+Proof.
+  destruct o as [c raw sow unk cur]. unfold fields_of, raw_at, read, getattr. cbn [ocls oraw].
+  intros Hf G Hx. rewrite Hf. unfold group_selects. rewrite G, Hx. reflexivity.
+Qed.
+
+(* proto3 optional and wrapper fields: `m.f is not None` exactly when a record of f occurs *)
+Theorem decode_optional sc c bs rs m j f :
+  wf_schema sc = true -> std_builtins_b sc = true ->
+  is_records rs bs -> parse sc c bs = Ok m ->
+  nth_error (cfields (get_class sc c)) j = Some f -> optional_like f ->
+  value_not_none sc m j = has_record f rs /\
+  (fopt f = true -> is_set sc m j = has_record f rs).
+Proof.
+  intros W S Hrs Hp Hf Hol.
+  destruct (parse_presence sc c bs rs m W S Hrs Hp) as ((I1 & _ & _) & G & C).
+  pose proof (wf_field_of sc c f W (nth_error_In _ _ Hf)) as Wf.
+  destruct (optional_like_hint _ _ _ Wf Hol) as (t & Ht).
+  pose proof Hol as (Gf & _).
+  assert (Hfm : nth_error (fields_of sc m) j = Some f) by (unfold fields_of; rewrite C; exact Hf).
+  rewrite C in I1. specialize (I1 j f Hf Gf). rewrite Ht in I1. specialize (I1 eq_refl).
+  destruct I1 as [It If].
+  destruct (has_record f rs) eqn:Hr.
+  - destruct (It eq_refl) as [[Vn Vp] _]. split.
+    + unfold value_not_none. rewrite (value_read sc m j f _ Hfm Gf eq_refl Vp).
+      destruct (raw_at m j); try reflexivity. congruence.
+    + intros Ho. unfold is_set, field_at. unfold fields_of in Hfm. rewrite Hfm, Ho.
+      destruct (raw_at m j); try reflexivity; congruence.
+  - specialize (If eq_refl). unfold sentinel_of in If. split.
+    + unfold value_not_none. destruct (fopt f).
+      * rewrite (value_read sc m j f PNone Hfm Gf If) by discriminate. reflexivity.
+      * rewrite (placeholder_read sc m j f Hfm Gf If). unfold default_of. rewrite Ht. reflexivity.
+    + intros Ho. unfold is_set, field_at. unfold fields_of in Hfm. rewrite Hfm, Ho. rewrite Ho in If.
+      rewrite If. reflexivity.
+Qed.
+
+(* oneof groups: which_one_of is the member whose record comes last *)
+Theorem decode_oneof sc c bs rs m g :
+  wf_schema sc = true -> std_builtins_b sc = true ->
+  is_records rs bs -> parse sc c bs = Ok m ->
+  which_one_of m g = last_member (get_class sc c) g rs.
+Proof.
+  intros W S Hrs Hp.
+  destruct (parse_presence sc c bs rs m W S Hrs Hp) as ((_ & I2 & _) & _ & C).
+  unfold which_one_of. rewrite I2, C. reflexivity.
+Qed.
+
+(* plain sub-message fields: serialized_on_wire(m.f) exactly when a record of f occurs *)
+Theorem decode_submessage sc c bs rs m j f :
+  wf_schema sc = true -> std_builtins_b sc = true ->
+  is_records rs bs -> parse sc c bs = Ok m ->
+  nth_error (cfields (get_class sc c)) j = Some f -> plain_msg f ->
+  child_on_wire m j = has_record f rs.
+Proof.
+  intros W S Hrs Hp Hf Hpm.
+  destruct (parse_presence sc c bs rs m W S Hrs Hp) as ((I1 & _ & _) & _ & C).
+  pose proof Hpm as ((Gf & Ho & _ & _) & (c' & Hc')).
+  rewrite C in I1. specialize (I1 j f Hf Gf). rewrite Hc' in I1. specialize (I1 eq_refl).
+  destruct I1 as [It If]. unfold child_on_wire.
+  destruct (has_record f rs).
+  - destruct (It eq_refl) as [_ Hm]. destruct (Hm Hpm) as (ch & -> & Hs). exact Hs.
+  - rewrite (If eq_refl). unfold sentinel_of. rewrite Ho. reflexivity.
 Qed.
